@@ -87,7 +87,8 @@ def make_class(rng, workdir, tier, index=0):
     if ctype in ("graph", "tls"):
         # "tls": every TLS access model (GD, IE, TLSDESC) x visibility, mostly in shared objects,
         # where the GOT slots get dynamic relocations instead of values.
-        g = gen_graph.generate(rng, rng.choice(["small", "medium"]), force_tls=(ctype == "tls"))
+        g = gen_graph.generate(rng, rng.choice(["small", "medium"]), force_tls=(ctype == "tls"),
+                               dummy_archives=True)
         objs = gen_graph.emit(g, workdir)
         kind = rng.choice(["exe", "shared", "pie"])
         if ctype == "tls":
